@@ -66,6 +66,8 @@ pub struct ReqLog {
 
 pub struct TState {
     pub add: AddMode,
+    /// answers for the next add_appointment requests, used up one per request, before `add` applies again
+    pub once: Vec<AddMode>,
     pub reg: RegMode,
     pub down: bool,
     pub log: Vec<ReqLog>,
@@ -208,7 +210,7 @@ impl FakeTower {
             }
         };
         listener.set_nonblocking(true).unwrap();
-        let st = Arc::new(Mutex::new(TState { add: AddMode::Accept, reg: RegMode::Accept, down: false, log: vec![], held: vec![], slots: 0, start: 100, expiry: 200, accepted: vec![] }));
+        let st = Arc::new(Mutex::new(TState { add: AddMode::Accept, once: vec![], reg: RegMode::Accept, down: false, log: vec![], held: vec![], slots: 0, start: 100, expiry: 200, accepted: vec![] }));
         let stop = Arc::new(AtomicBool::new(false));
         let (st2, stop2) = (st.clone(), stop.clone());
         let thread = std::thread::spawn(move || {
@@ -249,10 +251,10 @@ impl FakeTower {
                                 http_reply(&mut stream, code, &body);
                             }
                             "add_appointment" => {
-                                if s.add == AddMode::Hold {
+                                if s.add == AddMode::Hold && s.once.is_empty() {
                                     s.held.push((stream, req));
                                 } else {
-                                    let mode = s.add.clone();
+                                    let mode = if s.once.is_empty() { s.add.clone() } else { s.once.remove(0) };
                                     let (code, body) = add_reply(idx, &mut s, &mode, &req);
                                     drop(s);
                                     http_reply(&mut stream, code, &body);
